@@ -63,7 +63,8 @@ fn gen_proc(seed: u64, idx: u64, t: Tier) -> J {
 			(Fmt::Yaml, Shape::Arrays, _) => *r.pick(&[1_000usize, 10_000, 100_000]),
 			(Fmt::Yaml, _, _) => *r.pick(&[1_000usize, 3_000]),
 			(Fmt::Msgpack, _, _) => *r.pick(&[2_000usize, 10_000, 100_000, 1_000_000]),
-			_ => *r.pick(&[1_000usize, 10_000, 100_000, 1_000_000]),
+			(_, Shape::Arrays, _) => *r.pick(&[1_000usize, 10_000, 100_000, 1_000_000]),
+			_ => *r.pick(&[1_000usize, 3_000, 10_000]),
 		}
 	};
 	let bytes = gen::nested(f, shape, d, r.next());
@@ -143,7 +144,9 @@ fn gen(seed: u64, idx: u64, t: Tier) -> J {
 		(Fmt::Yaml, _, Tier::Quick) => &[1_000, 3_000],
 		(Fmt::Yaml, _, Tier::Thorough) => &[1_000, 3_000, 10_000],
 		(Fmt::Msgpack, _, _) => &[2_000, 10_000, 100_000, 1_000_000],
-		_ => &[1_000, 10_000, 100_000, 1_000_000],
+		// Text with deep mappings reaches libyaml's quadratic scanner through detection.
+		(_, Shape::Arrays, _) => &[1_000, 10_000, 100_000, 1_000_000],
+		(_, _, _) => &[1_000, 3_000, 10_000],
 	};
 	let depth = if far { *r.pick(far_depths) + r.range(0, 3) } else { 0 };
 	let to = *r.pick(&ALL_FMTS);
